@@ -47,7 +47,19 @@ def universe(seed, uid, attrs=False):
     rng = core.rng_for(seed, PROP, 'uni%d%s' % (uid, 'a' if attrs else ''))
     o = gen.Opts(sub_names=True, bare_prims=True, max_types=4, nested_arrays=0.0, styles=('wrapped', 'wrapped', 'bare'), multi_return=False, methods=(1, 3), services=(1, 1),
                  attrs=attrs)
-    return gen.rand_universe(rng, o, uid=uid)
+    ir = gen.rand_universe(rng, o, uid=uid)
+    if uid % 3 == 2:
+        # members and arguments that hold partial objects (novalidate_freq()): nothing but the occurrence counts is waived there
+        for c in ir['types']:
+            for fn, ft in c['fields']:
+                if 'ref' in ft and rng.random() < .6:
+                    ft['novalidate_freq'] = True
+        for sd in ir['services']:
+            for md in sd['methods']:
+                for an, at in md['args']:
+                    if 'ref' in at and md['style'] != 'bare' and rng.random() < .6:
+                        at['novalidate_freq'] = True
+    return ir
 
 
 NATIVE = {'integer': int, 'decimal': (decimal.Decimal, int), 'double': (float, int), 'boolean': bool, 'string': str, 'dateTime': datetime.datetime,
